@@ -96,11 +96,12 @@ def flat(x):
     return out
 
 
-def fit_job(lengths, S, lag, builder, trim, sliding, late_params=False):
+def fit_job(lengths, S, lag, builder, trim, sliding, late_params=False, explicit=True):
     tm = loader.load('enspara.msm.transition_matrices')
     mm = loader.load('enspara.msm.msm')
     ra = loader.load('enspara.ra.ra')
     lengths = list(lengths)
+    Sarg = S if explicit else None      # explicit=False: the number of states is inferred (largest id + 1) by MSM.fit and by the pipeline
 
     def build(rows, concrete):
         L = max(lengths)
@@ -108,17 +109,20 @@ def fit_job(lengths, S, lag, builder, trim, sliding, late_params=False):
         return np.array(padded, dtype=int) if concrete else funcs.np_array(padded, dtype=int)
 
     def pipeline(A, method):
-        C = tm.assigns_to_counts(A, lag_time=lag, max_n_states=S, sliding_window=sliding)
+        C = tm.assigns_to_counts(A, lag_time=lag, max_n_states=Sarg, sliding_window=sliding)
         if trim:
             mapping, C = tm.trim_disconnected(C)
         else:
-            mapping = tm.TrimMapping(zip(range(S), range(S)))
+            mapping = tm.TrimMapping(zip(range(C.shape[0]), range(C.shape[0])))
         Cb, T, pi = method(C)
         return Cb, T, pi, mapping
 
     def path(ctx):
         ctx.resolve_masks = True
         trajs = [[core.fresh_int('s', 0, S - 1) for _ in range(n)] for n in lengths]
+        if not explicit:
+            # the inferred size is S: state S-1 occurs somewhere (possibly only in a trajectory that is too short to contribute a pair)
+            ctx.add(core.to_z3_bool(core.sor(*[x == S - 1 for tr in trajs for x in tr])))
         method = dense_builder(builder)
         exc = None
         try:
@@ -132,7 +136,7 @@ def fit_job(lengths, S, lag, builder, trim, sliding, late_params=False):
                     m.lag_time, m.sliding_window = lag, sliding
                 m.max_n_states = S
             else:
-                m = mm.MSM(lag_time=lag, method=method, trim=trim, sliding_window=sliding, max_n_states=S)
+                m = mm.MSM(lag_time=lag, method=method, trim=trim, sliding_window=sliding, max_n_states=Sarg)
             m.fit(build(trajs, False))
             got = (dn(m.tcounts_), dn(m.tprobs_), dn(m.eq_probs_), dict(m.mapping_.to_original))
             exp = pipeline(build(trajs, False), method)
@@ -159,7 +163,7 @@ def fit_job(lengths, S, lag, builder, trim, sliding, late_params=False):
         def witness(model):
             cv = [[int(ev(model, x)) for x in tr] for tr in trajs]
             out = {'inputs': {'trajectories': cv, 'lag_time': lag, 'builder': builder, 'trim': trim,
-                              'sliding_window': sliding, 'max_n_states': S}}
+                              'sliding_window': sliding, 'max_n_states': Sarg}}
             with core.concrete_mode():
                 try:
                     if late_params:
@@ -170,7 +174,7 @@ def fit_job(lengths, S, lag, builder, trim, sliding, late_params=False):
                             m2.lag_time, m2.sliding_window = lag, sliding
                         m2.max_n_states = S
                     else:
-                        m2 = mm.MSM(lag_time=lag, method=method, trim=trim, sliding_window=sliding, max_n_states=S)
+                        m2 = mm.MSM(lag_time=lag, method=method, trim=trim, sliding_window=sliding, max_n_states=Sarg)
                     m2.fit(build(cv, True))
                     g2 = (dn(m2.tcounts_), dn(m2.tprobs_), dn(m2.eq_probs_), dict(m2.mapping_.to_original))
                     e2 = pipeline(build(cv, True), method)
@@ -420,6 +424,11 @@ def jobs(tier):
                         if builder == 'transpose' and L == (3, 2):
                             add('fit_job', 'fit[%s,lag=%d,%s,trim=%s,sliding=%s,parameters set after construction]' % (list(L), lag, builder, trim, sliding),
                                 lengths=L, S=2, lag=lag, builder=builder, trim=trim, sliding=sliding, late_params=True)
+                        if builder in ('transpose', 'normalize-noeq') and L in ((3, 2), (2, 2, 2)):
+                            # number of states inferred from the data (max_n_states=None) on both sides; 3 states so that the largest
+                            # id can occur in one place only
+                            add('fit_job', 'fit[%s,lag=%d,%s,trim=%s,sliding=%s,inferred state count]' % (list(L), lag, builder, trim, sliding),
+                                lengths=L, S=3, lag=lag, builder=builder, trim=trim, sliding=sliding, explicit=False)
     for n in (2, 3):       # n=4 was tried: every query ends `unknown` (quartic characteristic polynomial), so it is not claimed
         if n <= 2 or not q:
             add('spectrum_job', 'spectrum[n=%d,all,left]' % n, n=n)
